@@ -4,5 +4,8 @@ P="$(readlink -f "$1")"; ID="$2"; T="${3:-quick}"
 cd /repo || exit 2
 if ! git apply --check "$P" 2>/dev/null; then echo "patch does not apply"; exit 2; fi
 git apply "$P"
+cp /verif/evidence/$ID.json /tmp/.ev_$ID.json 2>/dev/null
 cd /verif && ./check "$ID" --tier "$T" 2>&1 | tail -6
 cd /repo && git checkout -- . && git clean -fdq
+# the evidence of a run against a seeded tree is not the evidence of the current tree
+[ -f /tmp/.ev_$ID.json ] && mv /tmp/.ev_$ID.json /verif/evidence/$ID.json
